@@ -26,6 +26,7 @@ normal oracle runs on them, its failure is attributed (tag "coefficient-table-mi
 that extend and concerns the coefficient data of exactly that kind; model and code are still compared.
 """
 import io
+import os
 import itertools
 import re
 from fractions import Fraction
@@ -136,9 +137,27 @@ def inverted_elements(aj, rng, p=1.0):
     return aj
 
 
+def hash_texts(aj, rng, p=1.0):
+    """with probability p put a '#' INTO a label and a second '#' into a coefficient string (LAMMPS data lines are
+    split at their first '#' only)"""
+    t = aj["types"]
+    if rng.random() >= p:
+        return aj
+    if t["label"]:
+        k = rng.randrange(len(t["label"]))
+        t["label"] = list(t["label"])
+        t["label"][k] = t["label"][k] + "#" + "sp%d" % rng.randint(1, 3)
+    for kind in KINDS + ["pair"]:
+        if t.get(kind) and rng.random() < 0.5:
+            k = rng.randrange(len(t[kind]))
+            t[kind] = list(t[kind])
+            t[kind][k] = t[kind][k] + " # see#%d" % rng.randint(1, 9)
+    return aj
+
+
 def rand_struct(rng, tg, nmax=8, **kw):
     n = rng.randint(1, nmax)
-    aj = odd_mass(inverted_elements(gen.rand_atoms(rng, n=n, **kw), rng, 0.3), rng, 0.5)
+    aj = hash_texts(odd_mass(inverted_elements(gen.rand_atoms(rng, n=n, **kw), rng, 0.3), rng, 0.5), rng, 0.15)
     if aj.get("cell") is not None and rng.random() < 0.75:
         # most cells LAMMPS-writable so that the save/load part of the property is exercised
         if not lammps_cell(aj["cell"]):
@@ -301,12 +320,30 @@ def lean_guard(dumps, op):
     if k == "extend":
         g = lambda i: dumps[i] if 0 <= i < len(dumps) else None
         d, sd = g(op["dst"]), g(op["src"])
-        if op["dst"] == op["src"] and any(a != b for a, b in op["map"]):
-            return False
         if d is None or sd is None:
             return True
-        return compat(d, sd) if op.get("offsets") is None else offsets_ok(d, sd, op["offsets"])
+        nm = norm_map(op["map"], len(sd["atoms"]), len(d["atoms"]))
+        if nm is None:
+            return True          # rejected map: the step fails, the guard is vacuous
+        if op["dst"] == op["src"] and any(a != b for a, b in nm):
+            return False
+        return compat(d, sd) if op.get("offsets") is None else offsets_ok(d, sd, pad_offsets(op["offsets"]))
     return True
+
+
+def norm_map(pairs, ns, n):
+    """the identity map as the code normalises it (numpy reading of negative indices); None = IndexError"""
+    out = []
+    for a, b in pairs:
+        if not (-ns <= a < ns and -n <= b < n):
+            return None
+        out.append([a % ns, b % n])
+    return out
+
+
+def pad_offsets(o):
+    o = list(o)
+    return (o + [0] * 5)[:5]
 
 
 def guard_ok(dumps, op):
@@ -320,7 +357,8 @@ def guard_ok(dumps, op):
         if d is None:
             return False
         if k == "getitem":
-            return bool(op["idx"]) and all(-len(d["atoms"]) <= i < len(d["atoms"]) for i in op["idx"])
+            # any integers in [-n, n), also none at all: the empty selection is the atom-less subset
+            return all(-len(d["atoms"]) <= i < len(d["atoms"]) for i in op["idx"])
         if k == "replicate":
             return d["cell"] is not None
         return True
@@ -336,15 +374,16 @@ def guard_ok(dumps, op):
         d, sd = g(op["dst"]), g(op["src"])
         if d is None or sd is None:
             return False
-        if op["dst"] == op["src"] and any(a != b for a, b in op["map"]):
+        nm = norm_map(op["map"], len(sd["atoms"]), len(d["atoms"]))     # negative = from the end, as numpy reads it
+        if nm is None:
+            return False
+        if op["dst"] == op["src"] and any(a != b for a, b in nm):
             return False       # an object extended with itself: only "atom k is atom k" respects the map's contract
-        keys = [a for a, _ in op["map"]]
-        vals = [b for _, b in op["map"]]
+        keys = [a for a, _ in nm]
+        vals = [b for _, b in nm]
         if len(set(keys)) != len(keys) or len(set(vals)) != len(vals):
             return False
-        if any(not 0 <= a < len(sd["atoms"]) for a in keys) or any(not 0 <= b < len(d["atoms"]) for b in vals):
-            return False
-        return compat(d, sd) if op.get("offsets") is None else offsets_valid(d, sd, op["offsets"])
+        return compat(d, sd) if op.get("offsets") is None else offsets_valid(d, sd, pad_offsets(op["offsets"]))
     return False
 
 
@@ -406,6 +445,23 @@ def atomless_from_json(aj):
         return Atoms(**kw)
 
 
+def converted(orig, via):
+    """an object that reaches the history through another public constructor: written as a LAMMPS data file and
+    loaded again (`load_lmpdat`), or converted to an ASE object and back (`from_ase_atoms`). The history's literal is
+    the dump of THIS object (the model starts from what the loader produced)."""
+    from mofun import Atoms
+    with core.quiet():
+        a = core.atoms_from_json(orig)
+        if via == "lmpdat":
+            f = io.StringIO()
+            a.save_lmpdat(f)
+            f.seek(0)
+            return Atoms.load_lmpdat(f)
+        if via == "ase":
+            return Atoms.from_ase_atoms(a.to_ase())
+    raise ValueError(via)
+
+
 def tables_only(aj):
     """the literal `aj` without its atoms and terms: type tables, coefficient tables, extra labels and cell stay"""
     j = _deep(aj)
@@ -427,6 +483,25 @@ def attr_kwargs(o):
     return kw
 
 
+SPELLINGS = ["list", "list", "tuple", "array", "npint", "range"]
+
+
+def spell(idx, how):
+    """the same index list in another public spelling (the model sees the plain list): tuple, integer ndarray, list of
+    numpy integers, range (only where the list IS a range; else the list)"""
+    import numpy as np
+    idx = list(idx)
+    if how == "tuple":
+        return tuple(idx)
+    if how == "array":
+        return np.array(idx, dtype=int)
+    if how == "npint":
+        return [np.int64(i) for i in idx]
+    if how == "range" and len(idx) >= 1 and all(i >= 0 for i in idx) and idx == list(range(idx[0], idx[0] + len(idx))):
+        return range(idx[0], idx[0] + len(idx))
+    return idx
+
+
 def apply_real(objs, op, cache=None):
     """run one op on the real objects (in place on the list `objs`); exceptions propagate.
     construct: from fresh python lists (default); "np": key -> from numpy arrays that are SHARED by every construct
@@ -442,6 +517,8 @@ def apply_real(objs, op, cache=None):
             if op["np"] not in cache:
                 cache[op["np"]] = np_kwargs(op["a"])
             objs[op["dst"]] = Atoms(**cache[op["np"]])
+        elif op.get("via"):
+            objs[op["dst"]] = converted(op["from"], op["via"])
         elif not op["a"]["atoms"]:
             objs[op["dst"]] = atomless_from_json(op["a"])
         else:
@@ -449,7 +526,7 @@ def apply_real(objs, op, cache=None):
     elif k == "copy":
         objs[op["dst"]] = objs[op["src"]].copy()
     elif k == "delete":
-        del objs[op["slot"]][list(op["idx"])]
+        del objs[op["slot"]][spell(op["idx"], op.get("spell"))]
     elif k == "pop":
         if op.get("default"):
             objs[op["slot"]].pop()
@@ -459,11 +536,18 @@ def apply_real(objs, op, cache=None):
         kw = {}
         if op.get("offsets") is not None:
             kw["offsets"] = tuple(op["offsets"])
-        objs[op["dst"]].extend(objs[op["src"]], structure_index_map={a: b for a, b in op["map"]}, **kw)
+        if op.get("spell") == "npint":
+            import numpy as np
+            m = {np.int64(a): np.int64(b) for a, b in op["map"]}
+            if "offsets" in kw:
+                kw["offsets"] = np.array(kw["offsets"], dtype=int)
+        else:
+            m = {a: b for a, b in op["map"]}
+        objs[op["dst"]].extend(objs[op["src"]], structure_index_map=m, **kw)
     elif k == "replicate":
         objs[op["dst"]] = objs[op["src"]].replicate(tuple(op["dims"]))
     elif k == "getitem":
-        objs[op["dst"]] = objs[op["src"]][list(op["idx"])]
+        objs[op["dst"]] = objs[op["src"]][spell(op["idx"], op.get("spell"))]
     else:
         raise ValueError(k)
 
@@ -545,6 +629,7 @@ def transfer(exp, op, pre):
         e = exp[op["dst"]].copy()
         e.union(exp[op["src"]])
         d, s = pre[op["dst"]], pre[op["src"]]
+        op = dict(op, map=norm_map(op["map"], len(s["atoms"]), len(d["atoms"])) or [])
         # the other's terms now connect, for every atom of the identity map, the atom of self it is identified with
         m = dict((a, b) for a, b in op["map"])
         for kk in KINDS:
@@ -726,13 +811,27 @@ def check_lammps(a, d):
                 return "%s line %d uses type %s outside the declared 1..%d" % (SECT[k], i + 1, tok[1], ntk)
             if any(not 1 <= int(x) <= n for x in tok[2:]):
                 return "%s line %d refers to an atom outside 1..%d" % (SECT[k], i + 1, n)
-    # read back with the real loader
+    # read back with the real loader; for a share of the objects through the public dispatcher instead
+    # (Atoms.save(path) / Atoms.load(path), path as str or pathlib.Path, file type from the extension or keyword)
+    via = len(text) % 6
     try:
         with core.quiet():
-            b = Atoms.load_lmpdat(io.StringIO(text))
+            if via in (0, 1, 2):
+                import pathlib
+                import tempfile
+                with tempfile.TemporaryDirectory(prefix="c09_") as tmp:
+                    path = os.path.join(tmp, "x.lmpdat" if via != 2 else "x.dat")
+                    arg = pathlib.Path(path) if via == 1 else path
+                    kw = {"filetype": "lmpdat"} if via == 2 else {}
+                    a.save(arg, **kw)
+                    if open(path).read() != text:
+                        return "Atoms.save(%s) wrote a file that differs from save_lmpdat" % type(arg).__name__
+                    b = Atoms.load(arg, **kw)
+            else:
+                b = Atoms.load_lmpdat(io.StringIO(text))
         e = core.canon_atoms(b)
     except Exception as ex:  # noqa
-        return "load_lmpdat of the written file raised %s: %s" % (type(ex).__name__, ex)
+        return "%s of the written file raised %s: %s" % ("Atoms.load" if via in (0, 1, 2) else "load_lmpdat", type(ex).__name__, ex)
     if [r["ty"] for r in e["atoms"]] != [r["ty"] for r in d["atoms"]]:
         return "atom types read back differ"
     if [r["g"] for r in e["atoms"]] != [r["g"] for r in d["atoms"]]:
@@ -835,7 +934,9 @@ class Runner:
                     break
             if not bad and self.lammps:
                 d = self.dumps[tg]
-                if d["atoms"] and lammps_cell(d["cell"]):
+                if (d["atoms"] or d["types"]["elem"]) and lammps_cell(d["cell"]):
+                    # (an atom-less object that carries type tables is written and read back too: the reader accepts
+                    # files without atoms)
                     bad = check_lammps(self.objs[tg], d)
                     if bad:
                         bad = "slot %d after %s: LAMMPS file: %s" % (tg, op["k"], bad)
@@ -941,6 +1042,9 @@ def enum_ops(dumps, depth_left):
     if n0 and depth_left == 1:
         out.append({"k": "delete", "slot": 0, "idx": [-1, n0 - 1, -1]})
         out.append({"k": "getitem", "src": 0, "dst": 2, "idx": [-1, 0, -1]})
+        out.append({"k": "getitem", "src": 0, "dst": 2, "idx": [], "spell": "tuple"})
+        if d1 is not None and d1["atoms"] and compat(d0, d1) and n0 + len(d1["atoms"]) <= 12:
+            out.append({"k": "extend", "dst": 0, "src": 1, "offsets": None, "map": [[-1, -1]]})
         if 2 * n0 <= 12:
             out.append({"k": "extend", "dst": 0, "src": 0, "offsets": None, "map": []})
             out.append({"k": "extend", "dst": 0, "src": 0, "offsets": None, "map": [[n0 - 1, n0 - 1]]})
@@ -986,6 +1090,19 @@ def rand_op(rng, run, tg, last_offsets):
         if u > 0.88:
             # an atom-less structure that carries type tables (to be extended later)
             op["a"] = tables_only(op["a"])
+        elif u > 0.70 and op["a"]["atoms"]:
+            # a starting point that comes out of a loader / converter instead of the constructor
+            via = "lmpdat" if (u > 0.76 and lammps_cell(op["a"]["cell"])) else "ase"
+            if via == "ase":
+                from ase.data import atomic_numbers
+                if not all(e in atomic_numbers for e in op["a"]["types"]["elem"]):
+                    via = None
+            if via:
+                try:
+                    lit = core.canon_atoms(converted(op["a"], via))
+                    op = {"k": "construct", "dst": dst, "a": lit, "via": via, "from": op["a"]}
+                except Exception:  # noqa  (a loader that raises on a written file is check_lammps's business)
+                    pass
         elif u < 0.6:
             op["np"] = "r%d" % tg.n
         return op
@@ -1011,7 +1128,7 @@ def rand_op(rng, run, tg, last_offsets):
         if u < 0.12:        # a repeated position (possibly in the other spelling)
             k = rng.choice(idx)
             idx.insert(rng.randrange(len(idx) + 1), rng.choice([k, k % n, k % n - n]))
-        return {"k": "delete", "slot": s, "idx": idx}
+        return {"k": "delete", "slot": s, "idx": idx, "spell": rng.choice(SPELLINGS)}
     if kind == "pop":
         if n == 0:
             return None
@@ -1024,8 +1141,8 @@ def rand_op(rng, run, tg, last_offsets):
         if n and 2 * n <= MAXATOMS and rng.random() < 0.12:
             # the object extended with ITSELF; only diagonal identity maps ("atom k is atom k") are inside the quantifier
             keys = rng.sample(range(n), rng.choice([0, 0, 1, min(2, n), n]))
-            return {"k": "extend", "dst": s, "src": s, "offsets": rng.choice([None, None, [0, 0, 0, 0, 0]]),
-                    "map": [[k, k] for k in keys]}
+            return {"k": "extend", "dst": s, "src": s, "offsets": rng.choice([None, None, [0, 0, 0, 0, 0], [0, 0, 0, 0]]),
+                    "map": [[k - n if rng.random() < 0.3 else k, k - n if rng.random() < 0.3 else k] for k in keys]}
         others = [i for i in full if i != s]
         if not others:
             return None
@@ -1047,7 +1164,13 @@ def rand_op(rng, run, tg, last_offsets):
         if not cands:
             return None
         off = rng.choice(cands)
-        op = {"k": "extend", "dst": s, "src": src, "offsets": off, "map": rand_map(rng, ns, n)}
+        m = rand_map(rng, ns, n)
+        if rng.random() < 0.35:      # numpy spelling of the same atoms: k - len(other), v - len(self)
+            m = [[a - ns if rng.random() < 0.5 else a, b - n if rng.random() < 0.5 else b] for a, b in m]
+        if off is not None and rng.random() < 0.4 and not ds["terms"]["improper"]:
+            off = off[:4]            # the documented four-entry tuple (from before impropers had an offset of their own)
+        op = {"k": "extend", "dst": s, "src": src, "offsets": off, "map": m,
+              "spell": rng.choice(["dict", "dict", "npint"])}
         if off is not None and op["map"]:
             # with explicit offsets a mapped atom adopts (type + offset): fine, `offsets_valid` covers every atom
             pass
@@ -1067,7 +1190,9 @@ def rand_op(rng, run, tg, last_offsets):
             idx.append(rng.choice(idx))
         if rng.random() < 0.4:      # np.take wraps negative integers: any of them may be written as i - n
             idx = [i - n if rng.random() < 0.5 else i for i in idx]
-        return {"k": "getitem", "src": s, "dst": rng.randrange(NSLOTS), "idx": idx}
+        if rng.random() < 0.08:
+            idx = []                # the empty selection: the atom-less subset that keeps the type tables
+        return {"k": "getitem", "src": s, "dst": rng.randrange(NSLOTS), "idx": idx, "spell": rng.choice(SPELLINGS)}
     return None
 
 
@@ -1134,6 +1259,8 @@ def directed(rng):
                        {"k": "construct", "dst": 3, "a": tables_only(a)},
                        {"k": "extend", "dst": 3, "src": 1, "offsets": None, "map": []},
                        {"k": "extend", "dst": 3, "src": 0, "offsets": None, "map": []},
+                       {"k": "getitem", "src": 0, "dst": 3, "idx": []},
+                       {"k": "extend", "dst": 3, "src": 1, "offsets": None, "map": []},
                        {"k": "getitem", "src": 2, "dst": 3, "idx": [0]},
                        {"k": "getitem", "src": 1, "dst": 3, "idx": list(range(len(b["atoms"])))[::-1]},
                        {"k": "extend", "dst": 3, "src": 1, "offsets": None, "map": []}]
@@ -1207,8 +1334,11 @@ def malformed(rng, count):
 # =============================================================================================== comparison
 
 def norm_result(r):
+    """error KINDS are compared where both sides define one: an index outside the array (numpy IndexError; the code's
+    `pos % 0` for pop on an atom-less structure is the model's index error too) against everything else"""
     if "err" in r:
-        return {"err": "error"}
+        e = str(r["err"])
+        return {"err": "index" if e in ("error:index", "error:IndexError", "error:ZeroDivisionError") else "other"}
     return r
 
 
@@ -1325,6 +1455,8 @@ def account(ctx, h, out, fail_at, what, stream):
         ctx.count("op:" + op["k"])
         if op["k"] == "construct":
             ctx.count("construct:non-table-mass" if has_odd_mass(op["a"]) else "construct:table-masses")
+            if op.get("via"):
+                ctx.count("construct:via-" + op["via"])
     if stream == "exhaustive":
         ctx.count("init:non-table-mass" if any(a is not None and has_odd_mass(a) for a in h["init"]) else "init:table-masses")
     for f in flags:
